@@ -89,7 +89,7 @@ fn run(ctx: &Ctx, rep: &Report) {
     }
     rep.counts(&local);
     // 2. built packages
-    let n: u64 = ctx.tier.pick(150, 5000);
+    let n: u64 = ctx.tier.pick(150, 20_000);
     let base = ctx.work_dir("build");
     par_for(ctx.threads, n, 1, |i| {
         let mut rng = Rng::for_case(ctx.seed, "C09", i);
